@@ -123,7 +123,7 @@ def value_strategy(name, prof):
   if name == "FillLineGap":
     return st.booleans()
   if name == "FontFamily":
-    item = st.one_of(enum_of(s.GenericFontFamilyType), st.sampled_from(["Arial", "A b", "Courier New", "x'y", "a,b", "a\\b", "q\"r"]))
+    item = st.one_of(enum_of(s.GenericFontFamilyType), st.sampled_from(["Arial", "A b", "Courier New", "x'y", "a,b", "a\\b", "q\"r", "e\\", "n\nl"]))
     return st.lists(item, min_size=1, max_size=3).map(tuple)
   if name == "FontSize":
     return lengths(prof, FS_U)
